@@ -9,7 +9,64 @@ HOOK_COMMITS = subprocess.run(
 
 ALL = [f"C{n:02d}" for n in range(1, 19)]
 
+TL_NOTE = "Transactions are constructed against the block's base state (as ProcessProposal/FinalizeBlock do); single-block histories from two start states (fresh chain with bridges; chain with locked funds and a used withdrawal event); amounts and signers outside the alphabets are not covered."
+
 CHECKS = {
+    "C01": dict(
+        category="model_checking",
+        technique="explicit-state BFS over real App::execute_transaction / end_block on forked block state, reference value-movement and fee model",
+        text=("T-level BFS inside a block: every sequence of <= 5 (thorough 7) transactions from the transfer/fee and bridge "
+              "alphabets (+ end_block), each built from signed bytes by the real CheckedTransaction::new and executed by the real "
+              "App::execute_transaction on a cnidarium fork of the real block state; after every transition the full state "
+              "(verifiable, nonverifiable, ephemeral block fees and deposits) is dumped and compared with an independent "
+              "reference: every (account, asset) / escrow / block-fee delta must equal the action's transfers plus fees computed "
+              "as base + multiplier x size from the stored schedule in wide arithmetic; per-asset conservation; end_block credits "
+              "exactly the accumulated block fees to the sudo address."),
+        note=TL_NOTE,
+        design_ref="2 C01",
+    ),
+    "C02": dict(
+        category="model_checking",
+        technique="explicit-state BFS over real transaction execution with an observational authority oracle on full state diffs",
+        text=("Same T-level search over the authority and bridge alphabets (signers include unauthorised accounts, bridge accounts "
+              "signing for themselves, privilege changes followed by use by the old and new holder). Oracle on the full pre/post "
+              "state diff of every executed transaction: a balance may fall only for the signer or for a bridge account whose "
+              "pre-state withdrawer is the signer; every changed privileged key class (sudo, fees, allowed fee assets, validators, "
+              "IBC sudo/relayers, per-bridge sudo/withdrawer/disabled/creation, withdrawal events) requires the signer to be the "
+              "authority recorded in the pre-state."),
+        note=TL_NOTE + " ibc/sudo is administered by the chain sudo address by design.",
+        design_ref="2 C02",
+    ),
+    "C03": dict(
+        category="model_checking",
+        technique="explicit-state BFS with byte-exact pre/post state comparison on failures and replay events",
+        text=("T-level search (depth 4, thorough 6) with bundles failing at later action indices, stale and gapped nonces and "
+              "replays of the exact bytes of the last two successful transactions. Oracle: a failed transaction leaves the complete "
+              "dump (state, block fees, cached deposits) byte-identical; success raises exactly the signer's nonce by one; a "
+              "non-current nonce or a replay never takes effect."),
+        note=TL_NOTE,
+        design_ref="2 C03",
+    ),
+    "C04": dict(
+        category="model_checking",
+        technique="explicit-state BFS over bridge transactions with deposit/withdrawal-event oracles",
+        text=("T-level search over the bridge alphabet from a state with locked funds and a used event id (depth 5, thorough 8): "
+              "the deposits a transaction publishes must be exactly its executed locks / bridge transfers (whose credit to the "
+              "bridge account is checked by the C01 movement reference), a withdrawal event id already recorded for the bridge is "
+              "never honoured again by unlock or bridge transfer, and every honoured id is recorded."),
+        note=TL_NOTE + " IBC-carried deposits/withdrawals are covered under C18.",
+        design_ref="2 C04",
+    ),
+    "C14": dict(
+        category="model_checking",
+        technique="explicit-state BFS over validator-update transactions, folding returned updates over the block-start set",
+        text=("T-level search over validator add/update/remove transactions (several per block, repeated keys, unauthorised "
+              "signers, sudo hand-over) followed by the real end_block; the returned update batch is folded over the validator set "
+              "at block start with CometBFT's rules (a removal must name a member, the set must stay non-empty) and must equal the "
+              "stored validator set and count."),
+        note=TL_NOTE + " Post-Aspen storage only in this revision.",
+        design_ref="2 C14",
+    ),
     "C08": dict(
         category="exploration",
         technique="bounded-exhaustive input enumeration on the real code against an independent RFC 6962 reference",
@@ -78,7 +135,7 @@ def main():
                        "-p astria-sequencer -p astria-merkle -p astria-core -p astria-conductor -p astria-sequencer-relayer "
                        "-p astria-composer --features <crate>/verif,... with CARGO_TARGET_DIR=/verif/target; the feature only "
                        "adds `#[cfg(all(test, feature = \"verif\"))] #[path = \"/verif/harness/...\"] mod ...;` lines"),
-            "baseline_off_cmd": "cd /repo && cargo test --workspace --no-fail-fast --offline",
+            "baseline_off_cmd": "/verif/baseline_off.sh",
             "source_commits": [c.split()[0] for c in HOOK_COMMITS],
             "add_only": True,
         },
